@@ -193,6 +193,12 @@ def handle (op : String) (args : List String) : Option String := do
       let (m, r) ← mesh? args
       let (m', _) ← mesh? r
       pure (boolStr (FullNormals P m m'))
+  | "c07.holds.readers_agree" =>
+      match args with
+      | n :: a :: rest => do
+        let n ← nat? n
+        pure (boolStr (rest.length + 1 == n && rest.all (· == a)))
+      | _ => none
   | "c07.holds.roundtrip" =>
       let (m, r) ← mesh? args
       let (m', _) ← mesh? r
